@@ -10,6 +10,7 @@ import (
 	"github.com/huderlem/poryscript/token"
 
 	"pmc/internal/comp"
+	"pmc/internal/dict"
 	"pmc/internal/harness"
 	"pmc/internal/model"
 )
@@ -350,6 +351,35 @@ func runC19(tier string) int {
 	if !sizeDone {
 		r.NotExhaustive("far positions not completed")
 	}
+	// (f) character classes: one representative of every Unicode general category, every non-ASCII white-space rune, combining
+	// marks and astral runes (plus the runes that occur as literals in the compiler's own source), singly and in pairs, in every
+	// lexical context (bare, inside an identifier, after a number, in a string, in both comment kinds, in a raw string, in a
+	// multi-line string), each followed by further tokens on the same line
+	classRunes := dict.CategoryRunes()
+	for _, r := range dict.Runes(dict.Load(repoDir())) {
+		if r >= 0x80 {
+			classRunes = append(classRunes, r)
+		}
+	}
+	nR := uint64(len(classRunes))
+	classCtx := []string{"%s z 1", "a%sb z", "1%s z", "\"x%sy\" z \"w\"", "# c%s\nz q", "q // %s d\nz", "`r%s` z", "\"a%s\n b\" z", "x(\"%s\") y # %s\n"}
+	classDone := r.Parallel((nR+nR*nR)*uint64(len(classCtx)), func(w int, idx uint64) {
+		ctx := classCtx[idx%uint64(len(classCtx))]
+		x := idx / uint64(len(classCtx))
+		var ins string
+		if x < nR {
+			ins = string(classRunes[x])
+		} else {
+			x -= nR
+			ins = string(classRunes[x%nR]) + string(classRunes[x/nR])
+		}
+		r.Add("class_rune_inputs", 1)
+		c19Check(r, strings.ReplaceAll(ctx, "%s", ins), true)
+	})
+	if !classDone {
+		r.NotExhaustive("character-class inputs not completed")
+	}
+	r.Set("class_runes", len(classRunes))
 	// (c) compiled output unchanged under layout changes (corpus of C16)
 	for _, prog := range c16Corpus {
 		toks := c16Parse(prog.text)
@@ -395,6 +425,7 @@ func runC19(tier string) int {
 			strings.Join(strings.Fields(src), "\n") + "\n",
 			strings.ReplaceAll(src, "\n", " # c\r\n"),
 			strings.ReplaceAll(strings.ReplaceAll(src, "\t", "  "), "\n", "\n\n// c\n"),
+			tightLayout(src),
 		}
 		for vi, v := range variants {
 			res := comp.Compile(v, comp.Opts{Optimize: true})
@@ -422,6 +453,7 @@ func runC19(tier string) int {
 		variants := []string{
 			strings.ReplaceAll(fp.Src, "\n", " # c\r\n"),
 			strings.ReplaceAll(strings.ReplaceAll(fp.Src, "\t", "  "), "\n", "\n\n// c\n"),
+			tightLayout(fp.Src),
 		}
 		if one := oneLine(fp.Src); strings.Count(one, "const ") == strings.Count(fp.Src, "const ") && !strings.Contains(one[strings.LastIndex(one, "\n")+1:], "const ") {
 			constInBody := false
@@ -449,5 +481,75 @@ func runC19(tier string) int {
 		"gaps are taken between tokens as the lexer itself reports them; a string-type prefix and the quote after it are one lexical unit; the white space and comments between the parts of a multi-part string are inside one token",
 		"inputs on which the lexer panics are counted and left to C18")
 	return r.Finish(r.Get("evaluations"), r.Get("nontrivial"),
-		"(a) every string of <= N characters over 20 characters (letters incl. multi-byte, a multi-byte non-letter, ASCII and non-ASCII digits, x, -, quote, backtick, space, tab, LF, CR, #, /, =, !, (, :); (b) every sequence of <= M lexemes from a 65-lexeme alphabet (all keywords, identifiers, numbers incl. hex/negative/leading zero, strings, typed string, raw string, every operator and delimiter, illegal characters) in 5 layouts; each input: position oracle on every token, then every gap replaced by each of 11 separators (spaces, tab, LF, CRLF, blank line, # and // comments, runs of several comment lines with indentation) and re-lexed; (c) C16's corpus programs compiled under every single-gap layout change; (d) tokens after K lines / K one-byte / K two-byte characters for every K <= 300 (thorough 5000) and around every power of two up to 2^17 (thorough 2^21); (e) every program of the control-flow families (C01 / C03 / C04 bounds) rewritten on one line, one token group per line, with a comment and CRLF at each line end, and with blank and comment lines between all lines, compiled and compared, and the same for the data families (C06 hoisting files, C08 mapscripts statements, file-level programs, reduced bounds); non-trivial = >= 2 tokens and a line break or multi-byte character")
+		"(a) every string of <= N characters over 20 characters (letters incl. multi-byte, a multi-byte non-letter, ASCII and non-ASCII digits, x, -, quote, backtick, space, tab, LF, CR, #, /, =, !, (, :); (b) every sequence of <= M lexemes from a 65-lexeme alphabet (all keywords, identifiers, numbers incl. hex/negative/leading zero, strings, typed string, raw string, every operator and delimiter, illegal characters) in 5 layouts; each input: position oracle on every token, then every gap replaced by each of 11 separators (spaces, tab, LF, CRLF, blank line, # and // comments, runs of several comment lines with indentation) and re-lexed; (c) C16's corpus programs compiled under every single-gap layout change; (d) tokens after K lines / K one-byte / K two-byte characters for every K <= 300 (thorough 5000) and around every power of two up to 2^17 (thorough 2^21); (e) every program of the control-flow families (C01 / C03 / C04 bounds) rewritten on one line, one token group per line, with a comment and CRLF at each line end, with blank and comment lines between all lines, and with every dispensable white space removed, compiled and compared, and the same for the data families (C06 hoisting files, C08 mapscripts statements, file-level programs, reduced bounds); (f) one representative of every Unicode general category, every non-ASCII white-space rune, combining marks, astral runes and the runes of the compiler's own source, singly and in pairs, in 9 lexical contexts; non-trivial = >= 2 tokens and a line break or multi-byte character")
+}
+
+// tightLayout removes every piece of white space that is not needed to keep two word-like tokens apart
+// (const definitions keep their own line: their value ends at the newline). String literals and raw
+// blocks are copied verbatim; the source must not contain comments.
+func tightLayout(src string) string {
+	var out strings.Builder
+	isWord := func(r rune) bool {
+		return r == '_' || r >= 0x80 || (r >= '0' && r <= '9') || (r >= 'a' && r <= 'z') || (r >= 'A' && r <= 'Z')
+	}
+	lastWord := false
+	pendingSpace := false
+	rs := []rune(src)
+	lineStart := true
+	for i := 0; i < len(rs); {
+		r := rs[i]
+		switch {
+		case r == '"' || r == '`':
+			j := i + 1
+			for j < len(rs) && rs[j] != r {
+				if r == '"' && rs[j] == '\\' {
+					j++
+				}
+				j++
+			}
+			if j < len(rs) {
+				j++
+			}
+			out.WriteString(string(rs[i:j]))
+			i = j
+			lastWord, pendingSpace, lineStart = false, false, false
+		case r == ' ' || r == '\t' || r == '\n' || r == '\r':
+			pendingSpace = true
+			if r == '\n' {
+				lineStart = true
+			}
+			i++
+		default:
+			if lineStart && strings.HasPrefix(string(rs[i:]), "const ") {
+				// copy the definition line verbatim, on a line of its own
+				j := i
+				for j < len(rs) && rs[j] != '\n' {
+					j++
+				}
+				if out.Len() > 0 {
+					out.WriteByte('\n')
+				}
+				out.WriteString(string(rs[i:j]))
+				out.WriteByte('\n')
+				i = j
+				lastWord, pendingSpace = false, false
+				continue
+			}
+			lineStart = false
+			w := isWord(r) || (r == '-' && i+1 < len(rs) && rs[i+1] >= '0' && rs[i+1] <= '9')
+			if w && lastWord && pendingSpace {
+				out.WriteByte(' ')
+			}
+			// a '-' that starts a number must stay apart from a preceding word or number
+			if r == '-' && lastWord {
+				out.WriteByte(' ')
+			}
+			out.WriteRune(r)
+			lastWord = isWord(r)
+			pendingSpace = false
+			i++
+		}
+	}
+	out.WriteByte('\n')
+	return out.String()
 }
